@@ -2,7 +2,7 @@
 from ..rules_tables import Tables, grammar, T1_line_count, T5_T6_cost_depth
 from ..rules_flow import Flow
 from ..rules_k import K3_class_tables
-from ..rules_gate import K1_loader, K2_reader
+from ..rules_gate import K1_loader, K2_reader, K21_stabilizer_accessor
 from ..rules_conv import U1_defined_attributes
 
 
@@ -19,6 +19,9 @@ def run(tree, rep, tier):
     # the PARSED entry (what a lookup hands out) records what the line says: fields from their columns, gates from their tokens
     K2_reader(rep, flow, tables=T)
     K1_loader(rep, flow, T, tier, mode="cost")
+    if tier == "thorough":
+        K21_stabilizer_accessor(rep, flow, T)
+        rep.decided += ["thorough tier: the accessor evaluated for every advertised configuration and every class id returns line `id`'s graph id / cost / depth and a circuit with exactly the gates the line's tokens name (K21, every entry of every advertised table)"]
     rep.rules["T1"]["floor"] = 20
     for f in T.stray:
         rep.note(f"stray table file {f.name} (not advertised): linted like the others, not a violation by existing")
